@@ -26,6 +26,13 @@ from .c01 import validate
 # ops whose every sampled configuration plain torch.fx could trace on the pinned tree (the others use len()/iteration/control
 # flow on tensors in Python and are outside the fx clause); a change of this set is reported, non-gating
 FX_TRACEABLE_AT_PIN = {"dropout", "gelu", "layer_norm", "linear", "linear_readout", "matmul", "silu", "silu_glu", "softmax"}
+
+
+def fx_expected(cfg: Dict[str, Any]) -> bool:
+    """The mean rules call math.* on the scales, which are Proxies when they depend on a traced shape: not traceable."""
+    return cfg["op"] in FX_TRACEABLE_AT_PIN and cfg.get("constraint", "__default__") not in ("gmean", "hmean", "amean")
+
+
 CLOSE = {"f64": 1e-12, "f32": 2e-5, "bf16": 4e-2, "f16": 1e-2}
 
 
@@ -202,15 +209,15 @@ def check_cfgs(rep: Report, cfgs: List[Dict[str, Any]], modes: List[str], rng: r
             except Exception as ex:
                 if mode == "fx_forward":
                     skipped_fx += 1     # not symbolically traceable (data-dependent python in the op): outside the fx clause
-                    if cfg["op"] in FX_TRACEABLE_AT_PIN:
-                        rep.beyond(f"{cfg['op']} was symbolically traceable by plain torch.fx on the pinned tree and is not any more: {type(ex).__name__}: {str(ex)[:100]}")
+                    if fx_expected(cfg):
+                        rep.beyond(f"{cfg['op']} was symbolically traceable by plain torch.fx on the pinned tree and is not any more: {type(ex).__name__}: {str(ex)[:100]}; cfg={cfg}")
                     continue
                 rep.violation(f"{cfg['op']} under {mode} raised {type(ex).__name__}: {str(ex)[:160]}; cfg={cfg}", {"cfg": cfg, "mode": mode}, key=f"raised:{mode}:{cfg['op']}")
                 continue
             if mode == "fx_forward" and any(e[0] == "err" and e[5] == 1 for e in evm):
                 skipped_fx += 1
-                if cfg["op"] in FX_TRACEABLE_AT_PIN:
-                    rep.beyond(f"{cfg['op']} was symbolically traceable by plain torch.fx on the pinned tree and is not any more")
+                if fx_expected(cfg):
+                    rep.beyond(f"{cfg['op']} was symbolically traceable by plain torch.fx on the pinned tree and is not any more; cfg={cfg}")
                 continue
             events += evm
             # aot_eager / leaf tracer / fx run the SAME ATen kernels as eager: float64 must agree at float64 rounding for every
